@@ -12,7 +12,7 @@ import (
 )
 
 type Act struct {
-	K    string // w | ws (io.WriteString on the raw writer; a "w" to the model) | hj (Hijack; nothing to the model) | wh | ah | sa | panic
+	K    string // we (WriteErrorString N B; to the model: wh N, w B) | sa with an empty V = SetAttribute(B, nil) | w | ws (io.WriteString on the raw writer; a "w" to the model) | hj (Hijack; nothing to the model) | wh | ah | sa | panic
 	B, V string
 	N    int
 }
@@ -74,6 +74,10 @@ func actsSx(kw string, as []Act) *sx.Node {
 		if a.K == "hj" {
 			continue // taking the connection over changes nothing the framework decides
 		}
+		if a.K == "we" {
+			n.List = append(n.List, sx.K("wh", sx.N(a.N)), sx.K("w", sx.H(a.B)))
+			continue
+		}
 		n.List = append(n.List, actSx(a))
 	}
 	return n
@@ -134,6 +138,7 @@ type Event struct {
 	Params   [][2]string
 	SelPath  string
 	Wrappers []int
+	Mw       string // X-Verif-Mw on the *http.Request the stage sees: which adapted middleware handed it on (checked on the Go side against Wrappers; not part of the model's input)
 }
 
 // Result is the observable projection of one served request (same shape as the driver's `(res …)`).
